@@ -1,15 +1,56 @@
-(* C08 — property theorems (placeholder list grows as proofs land). *)
-From Coq Require Import List Arith.
-From AV Require Import model.CFS_file proofs.CFS_file_proofs.
+(* C08 — a collection filesystem behaves like an ordinary in-memory filesystem.
+   Property theorems only; each is closed by `exact` of a lemma from proofs/. *)
+From Coq Require Import List Arith Bool.
+From AV Require Import model.CFS_file model.CFS_tree model.CFS_inst model.C08_run
+  proofs.CFS_file_proofs proofs.CFS_refine proofs.CFS_tree_proofs.
 Import ListNotations.
 
-(* a write through any handle stores exactly the bytes a byte array would hold afterwards, keeps the
-   node well formed and keeps every other handle's position usable *)
+(* The whole property: for every block size limit >= 1 and EVERY operation sequence (open with any
+   flags, read, write, append, seek, truncate, stat, readdir, mkdir, rename, remove, through any
+   number of handles), the observations of the implementation model (directory tree over
+   segment-list files, with the Go code's pointer caching and segment surgery) are exactly the
+   observations of the plain filesystem whose files are byte arrays: same bytes, same sizes and
+   listings, same error class at the same operations. *)
+Theorem C08_history_refines : forall mb, 1 <= mb -> forall ops,
+  run (Conc mb) (fs_init (Conc mb)) ops = run Spec (fs_init Spec) ops.
+Proof. exact history_refines. Qed.
+Print Assumptions C08_history_refines.
+
+(* ... and it holds from every reachable state, not only from the empty collection: one step of the
+   implementation model is one step of the specification on the abstracted state, and the
+   invariant (files well formed, handle positions usable, ids inside the table) is kept. *)
+Theorem C08_step_refines : forall mb, 1 <= mb -> forall s o, Good mb s ->
+  let '(s', v) := step (Conc mb) s o in
+  step Spec (abs mb s) o = (abs mb s', v) /\ Good mb s'.
+Proof. exact step_sim. Qed.
+Print Assumptions C08_step_refines.
+
+(* File level, the core of it: a write through any handle stores exactly what a byte array would
+   hold (zero-filling a gap after end of file), keeps the node well formed and keeps every other
+   handle's position usable, however the data straddles segment and block boundaries. *)
 Theorem C08_file_write_refines : forall mb, 1 <= mb -> forall fn p0 data,
-  WF fn -> handle_ok fn p0 ->
+  WF fn -> hok fn p0 ->
   let '(fn', p') := fn_write mb fn p0 data in
-  content fn' = overwrite (content fn ++ repeat 0 (off p0 - size fn)) (off p0) data /\
-  WF fn' /\ valid fn' p' /\ off p' = off p0 + length data /\ rep p' = Some (repacked fn') /\
-  (forall q, handle_ok fn q -> handle_ok fn' q).
-Proof. exact fn_write_ok. Qed.
+  (content fn', off p') = s_write (content fn) (off p0) data /\ WF fn' /\ hok fn' p' /\
+  (forall q, hok fn q -> hok fn' q).
+Proof. exact write_hok. Qed.
 Print Assumptions C08_file_write_refines.
+
+(* a read (through the caller's loop) returns exactly the requested slice of the byte array, and
+   reports EOF exactly when fewer bytes than requested remain *)
+Theorem C08_file_read_refines : forall fn n p, WF fn -> hok fn p ->
+  let '(d, p', eof) := fn_read_full fn n p in
+  (d, off p', eof) = s_read (content fn) n (off p) /\ hok fn p'.
+Proof. exact read_full_ok. Qed.
+Print Assumptions C08_file_read_refines.
+
+Theorem C08_file_truncate_refines : forall mb, 1 <= mb -> forall fn want, WF fn ->
+  content (fn_truncate mb fn want) = s_trunc (content fn) want /\ WF (fn_truncate mb fn want) /\
+  (forall q, hok fn q -> hok (fn_truncate mb fn want) q).
+Proof. exact trunc_hok. Qed.
+Print Assumptions C08_file_truncate_refines.
+
+(* the premises are satisfiable: the empty collection is a good state *)
+Theorem C08_init_good : forall mb, 1 <= mb -> Good mb (fs_init (Conc mb)).
+Proof. exact Good_init. Qed.
+Print Assumptions C08_init_good.
